@@ -207,9 +207,12 @@ func (c *MemoryCache[MetadataT]) cacheInternal(key CacheKey, data io.Reader, exp
 	incrementCacheEntries()
 	addCacheSize(&c.byteSize, int64(count))
 
+	// Hand out a snapshot, as Get does: the caller goes on reading it without the entry's lock
+	// while UpdateMetadata and Get write the stored metadata.
+	metaSnapshot := *meta
 	return &Entry[MetadataT]{
 		Data:     &memoryReadSeekCloser{bytes.NewReader(dataBytes)},
-		Metadata: meta,
+		Metadata: &metaSnapshot,
 	}, nil
 }
 
